@@ -32,6 +32,13 @@ def run(report, tier):
                 bounds=f"all {H.N_NAMES} EvtGen names in one daughter slot (names in the lexical classes F14a/c skipped)",
                 functions=FUNCS, timeout=600, sample={"daughter": "anti-Xi_c0"}),
     ]
+    hs.append(Harness(name="cdecay-multi", module="harness.c03", body="body_cdecay_multi", sig="sel: int", n_sel=H.N_MULTI, concrete_body=True,
+                      claim="with several CDecay statements in one file each is decided on its own: X gets the conjugate of ITS source, nothing "
+                            "without a source, its own Decay block wins - the set of tables is exactly the expected one and no table sits under "
+                            "another statement's name",
+                      bounds=f"{len(H.MULTI)} (X, source) pairs whose names sort differently from their statement order, each in {H.N_FATES} fates "
+                             "(absent | CDecay with source | CDecay without source | CDecay + own Decay block, with / without source) x 3 statement orders",
+                      functions=FUNCS, timeout=600, sample={"text": "CDecay B- (no Decay B+) / CDecay D*- / Decay D*+ ..."}))
     hs.append(Harness(name="cdecay-mothers", module="harness.c03", body="body_cdecay_mother", sig="sel: int", n_sel=H.N_NAMES, concrete_body=True,
                       claim="CDecay X for every EvtGen name X with a distinct antiparticle finds the table of the particle with the negated PDG id "
                             "and conjugates it; for self-conjugate / unknown names nothing is created under a guessed name",
